@@ -184,7 +184,7 @@ theorem good_kindRowsAt (W : World) (b : Ref) (tt : Nat) : ∀ r ∈ kindRowsAt 
   intro r hr
   unfold kindRowsAt at hr
   split at hr
-  · exact good_claimRows _ _ _ _ _ _ _ _ r hr
+  · exact good_claimRows _ _ _ _ _ _ _ _ r (List.mem_filter.mp hr).1
   · exact good_deleteRows _ _ _ _ _ _ r hr
   · exact good_fileRows _ _ _ _ _ _ _ _ r hr
   · exact good_dirRows _ _ _ _ r hr
